@@ -11,8 +11,10 @@ import (
 	"os"
 	"os/exec"
 	"path/filepath"
+	"regexp"
 	"runtime"
 	"sort"
+	"strconv"
 	"strings"
 	"sync"
 	"syscall"
@@ -113,12 +115,48 @@ func runWorker(bin string, timeout time.Duration, args ...string) workerOut {
 	for sc.Scan() {
 		var l line
 		if err := json.Unmarshal(sc.Bytes(), &l); err != nil {
+			// A library that writes outside its buffers can damage the worker's
+			// output as well. When a given tape is replayed the verdict is all
+			// that is needed from the line: salvage it.
+			if sl, ok := salvage(sc.Bytes(), args); ok {
+				wo.lines = append(wo.lines, sl)
+				continue
+			}
 			wo.err = fmt.Errorf("unparsable worker output %q: %v", sc.Text(), err)
 			return wo
 		}
 		wo.lines = append(wo.lines, l)
 	}
 	return wo
+}
+
+var (
+	salvageViol = regexp.MustCompile(`"violation":\{"class":"([a-z-]+)","detail":"((?:[^"\\]|\\.)*)"`)
+	salvageRun  = regexp.MustCompile(`^\{"t":"done","run":(\d+),`)
+)
+
+// salvage extracts run number and verdict from a damaged "done" line of a
+// worker that replays a given tape (-replay): the tape is known to the
+// caller, and everything else on the line is informative only.
+func salvage(b []byte, args []string) (line, bool) {
+	replaying := false
+	for _, a := range args {
+		if a == "-replay" {
+			replaying = true
+		}
+	}
+	rm := salvageRun.FindSubmatch(b)
+	vm := salvageViol.FindSubmatch(b)
+	if !replaying || rm == nil || vm == nil {
+		return line{}, false
+	}
+	run, _ := strconv.ParseUint(string(rm[1]), 10, 64)
+	detail, err := strconv.Unquote(`"` + string(vm[2]) + `"`)
+	if err != nil {
+		detail = string(vm[2])
+	}
+	return line{T: "done", Run: run, Nontrivial: true,
+		Viol: &Violation{Class: string(vm[1]), Detail: detail + " [the rest of the worker's output line was damaged, presumably by the library under test writing outside its buffers]"}}, true
 }
 
 // found is one violating run.
